@@ -18,7 +18,8 @@
                    computed references — may contain new cells.
    Text literals are assumed free of backslash / newline (C02) and of the
    substrings _R_ / _C_ (the renaming is textual in the implementation). *)
-From Coq Require Import ZArith List Bool String Ascii.
+From Coq Require Import String Ascii.
+From Coq Require Import ZArith List Bool.
 From PV Require Import Lib.Py Model.Syntax Model.Emit.
 From PV Require Gen.excelformula.
 Import ListNotations.
@@ -28,12 +29,13 @@ Inductive ptok := KName (s : list Z) | KOp (s : list Z) | KStr (s : list Z) | KN
 Definition tok_text (t : ptok) : list Z :=
   match t with KName s | KOp s | KStr s | KNum s => s end.
 
-Definition n_R : list Z := zs "_R_".
-Definition n_C : list Z := zs "_C_".
-Definition n_REF : list Z := zs "_REF_".
-Definition t_open : list Z := zs "(".
-Definition t_close : list Z := zs ")".
-Definition t_comma : list Z := zs ",".
+Definition n_R : list Z := zs "_R_"%string.
+Definition n_C : list Z := zs "_C_"%string.
+Definition n_REF : list Z := zs "_REF_"%string.
+Definition n_str : list Z := zs "str"%string.
+Definition t_open : list Z := zs "("%string.
+Definition t_close : list Z := zs ")"%string.
+Definition t_comma : list Z := zs ","%string.
 
 Definition ren_name (ren : bool) (n : list Z) : list Z :=
   if ren && (str_eqb n n_R || str_eqb n n_C) then n_REF else n.
@@ -51,7 +53,7 @@ Fixpoint pytokens (ren : bool) (t : pycst) : list ptok :=
   match t with
   | PAtom s => [classify ren s]
   | PParen t => KOp t_open :: pytokens ren t ++ [KOp t_close]
-  | PNeg t => KOp (zs "-") :: pytokens ren t
+  | PNeg t => KOp (zs "-"%string) :: pytokens ren t
   | PBin o l r => pytokens ren l ++ KOp (pyop_text o) :: pytokens ren r
   | PCall f args =>
       KName (ren_name ren f) :: KOp t_open ::
@@ -59,7 +61,7 @@ Fixpoint pytokens (ren : bool) (t : pycst) : list ptok :=
   | PTuple1 t => KOp t_open :: pytokens ren t ++ [KOp t_comma; KOp t_close]
   | PSeq items => join_toks [KOp t_comma] (map (pytokens ren) items)
   | PRefOp o l r =>
-      KName n_R :: KOp t_open :: KName (zs "str") :: KOp t_open ::
+      KName n_R :: KOp t_open :: KName n_str :: KOp t_open ::
       (pytokens true l ++ KOp (pyop_text o) :: pytokens true r) ++ [KOp t_close; KOp t_close]
   | PRaw s => [KOp s]
   | PRenamed t => pytokens true t
